@@ -115,6 +115,11 @@ def cases(tier):
                         if wname == "skip-between" and sdl != "full":
                             continue
                         c = {"query": query, "keys": keys, "custom": dict(zip(coords, a)), "sdl": sdl, "wrapping": wname}
+                        if wname == "plain" and sdl == "full" and a == assigns[0]:
+                            # the top-level fields have no explicit resolver: they are methods of the root value,
+                            # called by the default resolver, and still deferred where the runtime defers
+                            c2 = dict(c, custom={k_: v_ for k_, v_ in c["custom"].items() if not k_.startswith("Mutation.")}, root="methods", wrapping="root-methods")
+                            yield c2
                         if wname == "named-operation":
                             c["operation_name"] = "Wanted"
                         if wname == "skip-between":
@@ -151,8 +156,14 @@ def monitor(keys, world):
     return None
 
 
-def _overrides(paths, tier):
+def _overrides(paths, tier, wrapping="plain"):
     yield {}
+    if tier == "quick" and wrapping not in ("plain", "root-methods"):
+        # re-spellings of the same operation: failures only at the top-level fields
+        for p in paths:
+            if "." not in p:
+                yield {p: "err"}
+        return
     for p in paths:
         for o in ("err", "null"):
             yield {p: o}
@@ -173,12 +184,12 @@ def check_case(case, st):
 
     b = BOUNDS[st.tier]
     out = []
-    base = {"query": case["query"], "custom": case["custom"], "sdl": case.get("sdl", "full"), "operation_name": case.get("operation_name")}
+    base = {"query": case["query"], "custom": case["custom"], "sdl": case.get("sdl", "full"), "operation_name": case.get("operation_name"), "root": case.get("root")}
     paths, ndef = S.invoked_paths(base)
     # top-level fields are serialised, so only the results of one sub-tree are ever pending together:
     # every completion order is affordable
     free = True
-    for ov in _overrides(paths, st.tier):
+    for ov in _overrides(paths, st.tier, case.get("wrapping", "plain")):
         scn = dict(base, overrides=ov)
         ref, wref = H.run_config("blocking-opt", scn, None, fast=True)
         m = monitor(case["keys"], wref)
